@@ -24,7 +24,7 @@ def run(chk):
                 "first N differ from the unconstrained first N, or the case is an inactive / allowance-zero reduction")
     exprs, meta = [], []
     for it in range(450 if thorough else 100):
-        B, n, m, N, L, s = R.gen_region_case(rng, *((12, 7) if thorough else (9, 5)), graded=0.15, tiny=0.15)
+        B, n, m, N, L, s = R.gen_region_case(rng, *((12, 7) if thorough else (9, 5)), graded=0.15, tiny=0.3)
         A = [int(i) for i in QR().fit(B).get_sensors()]
         k = min(n, m)
         mode = it % 3
